@@ -53,3 +53,43 @@ Proof.
     + destruct R2 as [se' [v' [j' [rest' [_ [_ ->]]]]]]. right. exists j'. reflexivity.
     + left. exact R2.
 Qed.
+
+(* the same chain with 'all' (what H and He get) as the top element: nremove = None counts as max_am + 1 *)
+Definition kval (mx : Z) (n : option Z) : Z := match n with None => (mx + 1)%Z | Some k => k end.
+Definition truhlar_chain_all_stmt : Prop :=
+  forall shs n1 n2 o1 o2,
+    (forall mx, max_am_shells shs = inr mx -> (kval mx n1 <= kval mx n2)%Z) ->
+    element_remove_diffuse shs n1 = inr o1 -> element_remove_diffuse shs n2 = inr o2 ->
+    forall i s a b, nth_error shs i = Some s -> nth_error o1 i = Some a -> nth_error o2 i = Some b ->
+      (a = s \/ a = b) /\ (b = s \/ exists j, b = remove_primitive s j).
+
+Lemma truhlar_chain_all : truhlar_chain_all_stmt.
+Proof.
+  intros shs n1 n2 o1 o2 Hk H1 H2.
+  destruct (max_am_shells shs) as [e|mx] eqn:Emx.
+  { unfold element_remove_diffuse in H1. rewrite Emx in H1. discriminate H1. }
+  specialize (Hk mx eq_refl). unfold kval in Hk.
+  pose proof (AugmentSpec.element_remove_diffuse_spec shs n1 o1 mx H1 Emx) as F1.
+  pose proof (AugmentSpec.element_remove_diffuse_spec shs n2 o2 mx H2 Emx) as F2.
+  cbv zeta in F1, F2.
+  set (k := match n1 with None => (mx + 1)%Z | Some k => k end) in *.
+  set (k' := match n2 with None => (mx + 1)%Z | Some k => k end) in *.
+  intros i s a b Hs Ha Hb.
+  destruct (Forall2_nth _ _ _ F1 i s a Hs Ha) as [l [Hl R1]].
+  destruct (Forall2_nth _ _ _ F2 i s b Hs Hb) as [l' [Hl' R2]].
+  rewrite Hl in Hl'. injection Hl' as <-.
+  destruct ((l <=? mx)%Z && ((mx - k <? l)%Z && (0 <=? l)%Z)) eqn:C1.
+  - assert (C2 : ((l <=? mx)%Z && ((mx - k' <? l)%Z && (0 <=? l)%Z)) = true).
+    { apply Bool.andb_true_iff in C1. destruct C1 as [A B]. apply Bool.andb_true_iff in B. destruct B as [B C].
+      rewrite A, C. apply Z.ltb_lt in B. assert (D : (mx - k' <? l)%Z = true) by (apply Z.ltb_lt; lia).
+      rewrite D. reflexivity. }
+    rewrite C2 in R2.
+    destruct R1 as [se [v [j [rest [S1 [-> ->]]]]]].
+    destruct R2 as [se' [v' [j' [rest' [S2 [-> ->]]]]]].
+    rewrite S1 in S2. injection S2 as _ <- _.
+    split; [right; reflexivity | right; exists j; reflexivity].
+  - subst a. split; [left; reflexivity|].
+    destruct ((l <=? mx)%Z && ((mx - k' <? l)%Z && (0 <=? l)%Z)).
+    + destruct R2 as [se' [v' [j' [rest' [_ [_ ->]]]]]]. right. exists j'. reflexivity.
+    + left. exact R2.
+Qed.
